@@ -798,6 +798,11 @@ func (r *runner) checkEnd(c Case, i int, x *running, res *Result, fail, soft fun
 func main() {
 	os.Setenv("QUEUE_ACTIONS_METRICS", "no")
 	os.Unsetenv("DEBUG_KEEP_TMP_FILES")
+	// the operator's own environment may already carry these names (an operator started by a hook of another operator,
+	// a test runner): every execution must still get the files of its own run
+	for _, k := range []string{"BINDING_CONTEXT_PATH", "METRICS_PATH", "CONVERSION_RESPONSE_PATH", "VALIDATING_RESPONSE_PATH", "ADMISSION_RESPONSE_PATH", "KUBERNETES_PATCH_PATH"} {
+		os.Setenv(k, "/nonexistent/verif-foreign-"+k)
+	}
 	fs := flag.NewFlagSet("hookrun", flag.ExitOnError)
 	in := fs.String("in", "", "")
 	out := fs.String("out", "", "")
